@@ -25,6 +25,7 @@ func init() {
 		"buildstorage": opBuildStorage,
 		"parseesdt":    opParseESDT,
 		"build":        opBuild,
+		"buildseq":     opBuildSeq,
 		"enccall":      opEncCall,
 		"enctoken":     opEncToken,
 		"dectoken":     opDecToken,
@@ -188,6 +189,66 @@ func opBuild(_ *World, a []string) string {
 		b.Bytes(arg)
 	}
 	return "ok " + hxTok([]byte(b.ToString()))
+}
+
+// opBuildSeq: `buildseq <step> <step> ...` drives ONE builder object through a sequence of its methods, reads included:
+//   f:<hex> Func   b:<hex> Bytes   y:<hex byte> Byte   s:<hex> Str   i:<int64> Int64   t True   x False   c Clear
+//   l:<hex> SetLast(string)   r ToString (read)   g GetLast (read)
+// observation: ok <read>,<read>,...  (each read as hex of the returned string, `-` when empty; `ok` alone without reads)
+func opBuildSeq(_ *World, a []string) string {
+	b := txDataBuilder.NewBuilder()
+	reads := []string{}
+	for _, st := range a {
+		kind, arg := st, ""
+		if i := strings.IndexByte(st, ':'); i >= 0 {
+			kind, arg = st[:i], st[i+1:]
+		}
+		var val []byte
+		if kind != "i" && kind != "t" && kind != "x" && kind != "c" && kind != "r" && kind != "g" {
+			v, ok := unhexField(arg)
+			if !ok {
+				return obsBadOp
+			}
+			val = v
+		}
+		switch kind {
+		case "f":
+			b.Func(string(val))
+		case "b":
+			b.Bytes(val)
+		case "y":
+			if len(val) != 1 {
+				return obsBadOp
+			}
+			b.Byte(val[0])
+		case "s":
+			b.Str(string(val))
+		case "i":
+			n, err := strconv.ParseInt(arg, 10, 64)
+			if err != nil {
+				return obsBadOp
+			}
+			b.Int64(n)
+		case "t":
+			b.True()
+		case "x":
+			b.False()
+		case "c":
+			b.Clear()
+		case "l":
+			b.SetLast(string(val))
+		case "r":
+			reads = append(reads, hxTok([]byte(b.ToString())))
+		case "g":
+			reads = append(reads, hxTok([]byte(b.GetLast())))
+		default:
+			return obsBadOp
+		}
+	}
+	if len(reads) == 0 {
+		return "ok"
+	}
+	return "ok " + strings.Join(reads, ",")
 }
 
 const probeGasmap = "BaseOperationCost.StorePerByte=1,BaseOperationCost.ReleasePerByte=1,BaseOperationCost.DataCopyPerByte=1," +
